@@ -75,6 +75,12 @@ def build(mode='quick'):
         rc, out = sh([sys.executable, os.path.join(ROOT, 'tools', 'translate.py'), REPO, os.path.join(COQ, 'Gen')], timeout=120)
         if rc != 0:
             st['translator'] = {'ok': False, 'message': out.strip()[-2000:]}
+        try:
+            tstat = json.load(open(os.path.join(COQ, 'Gen', 'translate_status.json')))
+        except Exception:
+            tstat = {'failed': {}, 'owners': {}}
+        st['translator']['failed'] = tstat.get('failed', {})       # tables that could not be read this run (the last good copy is used)
+        st['translator']['owners'] = tstat.get('owners', {})
         # 1b. function translator: executes the selected functions of the repository on symbolic arguments and prints their decision trees
         # (Gen/Fn_*.v).  A function it refuses becomes an ill-typed definition there, so only the theorems depending on it fail.
         env = dict(os.environ, PYTHONPATH=REPO, PYTHONHASHSEED='0', PYTHONDONTWRITEBYTECODE='1')
